@@ -197,11 +197,11 @@ def run_case(case, acc, order):
 
 
 def explore(ctx):
-    K = 4 if ctx.thorough else 3
+    K = 5 if ctx.thorough else 4
     cases = []
     fam = list(range(len(FAMILY)))
     for k in range(1, K + 1):
-        pool = fam if k <= 3 else fam[:5]
+        pool = fam if k <= 3 else (fam[:5] if k == 4 else fam[:3])
         for tup in itertools.product(pool, repeat=k):
             cases.append({'tuple': list(tup), 'fill': ctx.seed})
     ctx.run_cases(run_case, cases, sweep='probe-tuples')
